@@ -1303,7 +1303,12 @@ class Face3D(Base2DIn3D):
         # rebuild the Face3D from the results and return them
         if len(split_faces) <= 1:  # not split into two or more pieces
             return None
-        return Face3D.merge_faces_to_holes(split_faces, tolerance)
+        split_faces = Face3D.merge_faces_to_holes(split_faces, tolerance)
+        # the pieces must add up to this face; otherwise the cycles are not a split
+        split_area = sum(face.area for face in split_faces)
+        if abs(split_area - self.area) > tolerance * self.perimeter:
+            return None
+        return split_faces
 
     def split_with_polyline(self, polyline, tolerance):
         """Split this face into two or more Face3D given an open Polyline3D.
@@ -1368,7 +1373,12 @@ class Face3D(Base2DIn3D):
         # rebuild the Face3D from the results and return them
         if len(split_faces) <= 1:  # not split into two or more pieces
             return None
-        return Face3D.merge_faces_to_holes(split_faces, tolerance)
+        split_faces = Face3D.merge_faces_to_holes(split_faces, tolerance)
+        # the pieces must add up to this face; otherwise the cycles are not a split
+        split_area = sum(face.area for face in split_faces)
+        if abs(split_area - self.area) > tolerance * self.perimeter:
+            return None
+        return split_faces
 
     def split_with_lines(self, lines, tolerance):
         """Split this face into two or more Face3D given multiple LineSegment3D.
@@ -1435,7 +1445,12 @@ class Face3D(Base2DIn3D):
         # rebuild the Face3D from the results and return them
         if len(split_faces) <= 1:  # not split into two or more pieces
             return None
-        return Face3D.merge_faces_to_holes(split_faces, tolerance)
+        split_faces = Face3D.merge_faces_to_holes(split_faces, tolerance)
+        # the pieces must add up to this face; otherwise the cycles are not a split
+        split_area = sum(face.area for face in split_faces)
+        if abs(split_area - self.area) > tolerance * self.perimeter:
+            return None
+        return split_faces
 
     def intersect_line_ray(self, line_ray):
         """Get the intersection between this face and the input LineSegment3D or Ray3D.
